@@ -58,6 +58,9 @@ struct PipeReader {
     chunk: Vec<u8>,
     off: usize,
     pend_left: Option<u8>,
+    /// the stream starts with a byte-order mark: the first piece handed to the reader
+    /// holds all of it (the sniff looks at the first piece only — C02's stated exception)
+    bom_first: bool,
 }
 
 fn cyc(v: &[u8], i: usize, dflt: u8) -> u8 {
@@ -148,7 +151,7 @@ impl PipeReader {
         }
         self.chunk.clear();
         self.off = 0;
-        if st.q.is_empty() {
+        if st.q.is_empty() || (self.bom_first && idx == 0 && st.q.len() < 3 && !st.closed) {
             if st.closed {
                 return Poll::Ready(Ok(()));
             }
@@ -156,7 +159,10 @@ impl PipeReader {
             st.rwaker = Some(cx.waker().clone());
             return Poll::Pending;
         }
-        let take = (cyc(&self.plan.take, idx, 255).max(1) as usize).min(st.q.len());
+        let mut take = (cyc(&self.plan.take, idx, 255).max(1) as usize).min(st.q.len());
+        if self.bom_first && idx == 0 {
+            take = take.max(3.min(st.q.len()));
+        }
         for _ in 0..take {
             self.chunk.push(st.q.pop_front().unwrap());
         }
@@ -284,7 +290,13 @@ fn expected(builds: &[Build]) -> Vec<Expect> {
                 decls.push((bi, (version.clone(), encoding.clone(), standalone.clone())));
             }
             Build::DocType(s) => push(Event::DocType(BytesText::from_escaped(s.clone())), None, None),
-            Build::Eof => {}
+            Build::Eof | Build::Indent => {}
+            // at the very start the reader strips the mark; anywhere else it is text
+            Build::Bom => {
+                if bi > 0 {
+                    push(Event::Text(BytesText::from_escaped("\u{feff}")), Some("\u{feff}".to_string()), None)
+                }
+            }
             Build::Builder { name, attrs, content, .. } => {
                 let mut e = BytesStart::new(name.clone());
                 for (k, v) in attrs {
@@ -345,6 +357,8 @@ fn emit_sync(builds: &[Build], w: &mut Writer<Vec<u8>>) -> io::Result<()> {
             }
             Build::DocType(s) => w.write_event(Event::DocType(BytesText::from_escaped(s.as_str())))?,
             Build::Eof => w.write_event(Event::Eof)?,
+            Build::Bom => w.write_bom()?,
+            Build::Indent => w.write_indent()?,
             Build::Builder { name, attrs, content, nl } => {
                 let mut ew = w.create_element(name.as_str());
                 for (i, (k, v)) in attrs.iter().enumerate() {
@@ -402,6 +416,12 @@ async fn emit_async(builds: &[Build], w: &mut Writer<PipeWriter>) -> quick_xml::
             }
             Build::DocType(s) => w.write_event_async(Event::DocType(BytesText::from_escaped(s.as_str()))).await?,
             Build::Eof => w.write_event_async(Event::Eof).await?,
+            Build::Bom => {
+                // there is no async write_bom: the documented way is the same three bytes
+                use tokio::io::AsyncWriteExt;
+                w.get_mut().write_all(&[0xEF, 0xBB, 0xBF]).await?
+            }
+            Build::Indent => w.write_indent_async().await?,
             Build::Builder { name, attrs, content, nl } => {
                 let mut ew = w.create_element(name.as_str());
                 for (i, (k, v)) in attrs.iter().enumerate() {
@@ -589,7 +609,13 @@ impl Scenario for Pipe {
     fn gen(&self, rng: &mut Rng, base_seed: u64, run: u64, _tier: Tier) -> Plan {
         let mut p = Plan::new("pipe", base_seed, run);
         let mut open = vec![];
+        if rng.chance(1, 25) {
+            p.builds.push(Build::Bom);
+        }
         for _ in 0..rng.range(1, 12) {
+            if rng.chance(1, 30) {
+                p.builds.push(Build::Indent);
+            }
             p.builds.push(gen_build(rng, &mut open));
         }
         if rng.chance(1, 12) {
@@ -669,14 +695,17 @@ impl Scenario for Pipe {
             }
         };
         st.executions += 1;
-        let state = Rc::new(RefCell::new(PipeState { cap: plan.pipe.capacity.max(1) as usize, ..Default::default() }));
+        let bom_first = matches!(builds.first(), Some(Build::Bom));
+        // (a pipe that cannot hold the whole byte-order mark could never deliver it in one piece)
+        let cap = if bom_first { plan.pipe.capacity.max(4) } else { plan.pipe.capacity.max(1) } as usize;
+        let state = Rc::new(RefCell::new(PipeState { cap, ..Default::default() }));
         let timers = Timers::default();
         let write_result: RefCell<Option<Result<(), String>>> = RefCell::new(None);
         let read_events: RefCell<Vec<Result<Event<'static>, String>>> = RefCell::new(vec![]);
         let read_budget = ref_bytes.len() * 2 + 16;
         let run = guard(|| {
             let pw = PipeWriter { st: state.clone(), plan: plan.pipe.clone(), pend_left: None };
-            let pr = PipeReader { st: state.clone(), plan: plan.pipe.clone(), chunk: vec![], off: 0, pend_left: None };
+            let pr = PipeReader { st: state.clone(), plan: plan.pipe.clone(), chunk: vec![], off: 0, pend_left: None, bom_first: matches!(builds.first(), Some(Build::Bom)) };
             let wres = &write_result;
             let revs = &read_events;
             let writer_task = async move {
